@@ -236,3 +236,152 @@ V("cli-generator-swapped-return", ["C20"], CL, "fire", ("ffcx/codegeneration/C/i
 V("cli-benign-vars", ["C20"], CL, "benign",
   (MAINP, "    priority_options = {k: v for k, v in xargs.__dict__.items() if v is not None}", "    priority_options = {k: v for k, v in vars(xargs).items() if v is not None}"))
 V("cli-benign-comment", ["C20"], CL, "benign", (OPTS, "    options.update(user_options)\n", "    # user file first\n    options.update(user_options)\n"))
+
+# ---- C06 / descriptors ---------------------------------------------------------------------------------
+COM = "ffcx/codegeneration/common.py"
+CFORM = "ffcx/codegeneration/C/form.py"
+NFORM = "ffcx/codegeneration/numba/form.py"
+UFCX = "ffcx/codegeneration/ufcx.h"
+DS = ["IDX-SPACE", "PERM-CONSISTENT", "TYPE-ORDER", "EVERYWHERE-ID", "DESC-FIELDS", "FORM-IR-SOURCES", "CLOSED-DOMAINS", "KERNEL-SIG"]
+V("desc-offsets-kernel-index", ["C06"], DS, "fire",
+  (COM, "        offsets.append(offsets[-1] + sum(len(d) for d in ir.integral_domains[itg_type]))", "        offsets.append(offsets[-1] + sum(len(d) for d in domains[offsets[-1] :]))"))
+V("desc-offsets-group-count", ["C06"], DS, "fire",
+  (COM, "        offsets.append(offsets[-1] + sum(len(d) for d in ir.integral_domains[itg_type]))", "        offsets.append(offsets[-1] + len(_ids))"))
+V("desc-names-not-permuted", ["C06"], DS, "fire",
+  (COM, "        names += [ir.integral_names[itg_type][i] for i in id_sort]", "        names += [ir.integral_names[itg_type][i] for i in range(len(_ids))]"))
+V("desc-type-order", ["C06"], DS, "fire",
+  (COM, "    for itg_type in (\"cell\", \"exterior_facet\", \"interior_facet\", \"vertex\", \"ridge\"):", "    for itg_type in (\"cell\", \"interior_facet\", \"exterior_facet\", \"vertex\", \"ridge\"):"))
+V("desc-otherwise-minus-two", ["C06"], DS, "fire", (REP, "sid if sid != \"otherwise\" else -1 for sid in itg_data.subdomain_id", "sid if sid != \"otherwise\" else -2 for sid in itg_data.subdomain_id"))
+V("desc-negative-ids-accepted", ["C06", "C19"], DS + ["REJECTIONS"], "fire",
+  (REP, "        if min(subdomain_ids) < -1:\n            raise ValueError(\"Integral subdomain IDs must be non-negative.\")\n", ""))
+V("desc-template-missing-field", ["C06", "C20"], DS, "fire", ("ffcx/codegeneration/C/form_template.py", "  .rank = {rank},\n", ""))
+V("desc-numba-missing-attr", ["C06", "C18"], DS, "fire", ("ffcx/codegeneration/numba/form_template.py", "  num_constants = {num_constants}\n", ""))
+V("desc-slot-wrong-source", ["C06"], DS, "fire", (CFORM, "    d[\"rank\"] = ir.rank\n", "    d[\"rank\"] = ir.num_coefficients\n"))
+V("desc-numba-slot-differs", ["C18"], DS, "fire", (NFORM, "    d[\"num_coefficients\"] = ir.num_coefficients", "    d[\"num_coefficients\"] = ir.num_constants"))
+V("desc-enum-renumbered", ["C06"], DS, "fire", (UFCX, "    exterior_facet = 1,\n    interior_facet = 2,", "    interior_facet = 1,\n    exterior_facet = 2,"))
+V("desc-constants-from-reduced", ["C06", "C05"], DS + ["PREFIX-OFFSETS"], "fire",
+  (REP, "    ir[\"num_constants\"] = len(form_data.original_form.constants())", "    ir[\"num_constants\"] = len(form_data.preprocessed_form.constants())"))
+V("desc-kernel-sig-geom-type", ["C09", "C04"], DS, "fire",
+  ("ffcx/codegeneration/C/integral_template.py", "const {geom_type}* restrict coordinate_dofs", "const {scalar_type}* restrict coordinate_dofs"))
+V("desc-benign-rename-perm", ["C06"], DS, "benign",
+  (COM, "        id_sort = np.argsort(_ids)\n\n        ids += [_ids[i] for i in id_sort]\n        names += [ir.integral_names[itg_type][i] for i in id_sort]\n        domains += [ir.integral_domains[itg_type][i] for i in id_sort]",
+        "        perm = np.argsort(_ids)\n\n        ids += [_ids[k] for k in perm]\n        names += [ir.integral_names[itg_type][k] for k in perm]\n        domains += [ir.integral_domains[itg_type][k] for k in perm]"))
+V("desc-benign-count-before", ["C06"], DS, "benign",
+  (COM, "        ids += [_ids[i] for i in id_sort]", "        n_before = len(domains)\n        ids += [_ids[i] for i in id_sort]"),
+  (COM, "sum(len(d) for d in ir.integral_domains[itg_type]))", "sum(len(d) for d in domains[n_before:]))"))
+
+# ---- C07 / C05 / C08 / C02 kernel shape ------------------------------------------------------------------
+DEF = "ffcx/codegeneration/definitions.py"
+ACC = "ffcx/codegeneration/access.py"
+K = ["ACCUMULATE-ONLY", "NO-MUTABLE-STATIC", "ACCESSOR-ONLY", "PREFIX-OFFSETS", "SLOT-RESTRICTION", "MACRO-DOUBLING", "BOUND-SAMESRC"]
+V("ker-assign-on-A", ["C07", "C01"], K, "fire", (IG, "                body.append(L.AssignAdd(A[multi_index], expression))", "                body.append(L.Assign(A[multi_index], expression))"))
+V("ker-expr-assign-on-A", ["C07", "C04"], K, "fire", (EG, "                    quadparts.append(L.AssignAdd(A[multi_index], Brhs))", "                    quadparts.append(L.Assign(A[multi_index], Brhs))"))
+V("ker-table-not-const", ["C07"], K, "fire", (IG, "        return [L.ArrayDecl(table_symbol, values=table, const=True)]", "        return [L.ArrayDecl(table_symbol, values=table)]"))
+V("ker-static-all", ["C07"], K, "fire", (CF, "        cstr = \"static const \" if arr.const else \"\"", "        cstr = \"static const \" if arr.const else \"static \""))
+V("ker-assignadd-op", ["C07"], K, "fire", (LN, "    op = \"+=\"", "    op = \"=\""))
+V("ker-write-coordinate-dofs", ["C07"], K, "fire",
+  (DEF, "        body = [L.AssignAdd(access, dof_access[ic.global_index * dim + begin + offset] * FE)]", "        body = [L.AssignAdd(dof_access[ic.global_index * dim + begin + offset], access * FE)]"))
+V("ker-offset-after-increment", ["C05"], K, "fire",
+  (REP, "            coefficient_offsets[coeff] = _offset\n            _offset += width * element_dimensions[el]", "            _offset += width * element_dimensions[el]\n            coefficient_offsets[coeff] = _offset"))
+V("ker-width-facets", ["C05", "C02"], K, "fire", (REP, "        width = 2 if integral_type in (\"interior_facet\") else 1", "        width = 2 if \"facet\" in integral_type else 1"))
+V("ker-constant-wrong-table", ["C05"], K, "fire", (SYM, "        offset = self.original_constant_offsets[constant]", "        offset = self.coefficient_offsets.get(constant, 0)"))
+V("ker-w-outside-accessor", ["C05", "C08"], K, "fire",
+  (ACC, "            return self.symbols.coefficient_dof_access(mt.terminal, begin)", "            return self.symbols.coefficients[begin]"))
+V("ker-enabled-inverted", ["C05"], K, "fire",
+  ("ffcx/codegeneration/C/integral.py", "        values = \", \".join(\"1\" if i else \"0\" for i in ir.enabled_coefficients)", "        values = \", \".join(\"0\" if i else \"1\" for i in ir.enabled_coefficients)"))
+V("ker-entity-no-cell-return", ["C08"], K, "fire",
+  (SYM, "        if entity_type == \"cell\":\n            # Always 0 for cells (even with restriction)\n            return L.LiteralInt(0)\n\n        if entity_type == \"facet\":", "        if entity_type == \"facet\" or entity_type == \"cell\":"))
+V("ker-minus-uses-slot0", ["C02", "C08"], K, "fire",
+  (SYM, "            if restriction == \"-\":\n                return self.entity_local_index[1]\n            else:\n                return self.entity_local_index[0]", "            if restriction == \"-\":\n                return self.entity_local_index[0]\n            else:\n                return self.entity_local_index[0]"))
+V("ker-perm-plus-uses-slot1", ["C02", "C03"], K, "fire",
+  (ACC, "            qp = self.symbols.quadrature_permutation[0]\n            if restriction == \"-\":\n                qp = self.symbols.quadrature_permutation[1]", "            qp = self.symbols.quadrature_permutation[1]\n            if restriction == \"-\":\n                qp = self.symbols.quadrature_permutation[0]"))
+V("ker-perm-unguarded", ["C08"], K, "fire",
+  (ACC, "        if tabledata.is_permuted:\n            qp = self.symbols.quadrature_permutation[0]", "        if True:\n            qp = self.symbols.quadrature_permutation[0]"))
+V("ker-coordinate-shift-gdim", ["C02"], K, "fire", (SYM, "            offset = num_scalar_dofs * 3", "            offset = num_scalar_dofs * gdim"))
+V("ker-coordinate-stride-gdim", ["C02"], K, "fire", (DEF, "        # coordinate dofs is always 3d\n        dim = 3", "        # coordinate dofs is always 3d\n        dim = domain.geometric_dimension"))
+V("ker-shape-not-doubled", ["C02", "C08"], K, "fire", (REP, "            expression_ir[\"tensor_shape\"] = [2 * dim for dim in argument_dimensions]", "            expression_ir[\"tensor_shape\"] = [dim for dim in argument_dimensions]"))
+V("ker-minus-shift-all-terminals", ["C02"], K, "fire",
+  (ET, "        if mt.restriction == \"-\" and isinstance(mt.terminal, ufl.classes.FormArgument):", "        if mt.restriction == \"-\":"))
+V("ker-loop-bound-other-table", ["C08"], K, "fire",
+  (DEF, "        ic = create_dof_index(tabledata, ic_symbol)\n\n        # Get properties of tables", "        ic = create_dof_index(self.access.last_table, ic_symbol)\n\n        # Get properties of tables"))
+V("ker-dof-range-first-axis", ["C08"], K, "fire", (DEF, "        ranges = [tabledata.values.shape[-1]]", "        ranges = [tabledata.values.shape[-2]]"))
+V("ker-nested-loops-shifted", ["C08"], K, "fire", (LN, "        body = ForRange(indices[i], 0, ranges[i], body=[body])", "        body = ForRange(indices[i], 0, ranges[i - 1], body=[body])"))
+V("ker-A-shape-raw", ["C08"], K, "fire", (IG, "        A_shape = self.ir.expression.tensor_shape", "        A_shape = [len(b) for b in blockmap]"))
+V("ker-benign-rename-ic", ["C08", "C02"], K, "benign",
+  (DEF, "        ic = create_dof_index(tabledata, ic_symbol)\n        iq = create_quadrature_index(quadrature_rule, iq_symbol)\n        FE, tables = self.access.table_access(tabledata, self.entity_type, mt.restriction, iq, ic)\n\n        dof_access = L.Symbol(\"coordinate_dofs\", dtype=L.DataType.REAL)",
+        "        dof_idx = create_dof_index(tabledata, ic_symbol)\n        q_idx = create_quadrature_index(quadrature_rule, iq_symbol)\n        FE, tables = self.access.table_access(tabledata, self.entity_type, mt.restriction, q_idx, dof_idx)\n\n        dof_access = L.Symbol(\"coordinate_dofs\", dtype=L.DataType.REAL)"),
+  (DEF, "        body = [L.AssignAdd(access, dof_access[ic.global_index * dim + begin + offset] * FE)]\n        code = [L.create_nested_for_loops([ic], body)]\n\n        name = type(mt.terminal).__name__\n        output = [access]", "        body = [L.AssignAdd(access, dof_access[dof_idx.global_index * dim + begin + offset] * FE)]\n        code = [L.create_nested_for_loops([dof_idx], body)]\n\n        name = type(mt.terminal).__name__\n        output = [access]"))
+V("ker-benign-temp-name", ["C07"], K, "benign", (OPT, "                name = f\"temp_{counter}\"", "                name = f\"hoisted_{counter}\""))
+
+# ---- C03 -------------------------------------------------------------------------------------------------
+P = ["PERM-AXIS", "PERM-FLAG-IMPL", "SLOT-RESTRICTION"]
+V("perm-loops-swapped", ["C03"], P, "fire",
+  (ET, "                        for rot in range(3):\n                            for ref in range(2):", "                        for ref in range(2):\n                            for rot in range(3):"))
+V("perm-args-swapped", ["C03"], P, "fire", (ET, "                                        permute_quadrature_quadrilateral(\n                                            quadrature_rule.points, ref, rot\n                                        ),", "                                        permute_quadrature_quadrilateral(\n                                            quadrature_rule.points, rot, ref\n                                        ),"))
+V("perm-quad-three-rotations", ["C03"], P, "fire", (ET, "                        for rot in range(4):", "                        for rot in range(3):"))
+V("perm-triangle-rotation-map", ["C03"], P, "fire", (ET, "            output[n] = [p[1], 1 - p[0] - p[1]]", "            output[n] = [1 - p[0] - p[1], p[0]]"))
+V("perm-axis-always-dropped", ["C03"], P, "fire", (ET, "        if not is_permuted:\n            # Reduce table along num_perms axis\n            tbl = tbl[:1, :, :, :]", "        if True:\n            # Reduce table along num_perms axis\n            tbl = tbl[:1, :, :, :]"))
+V("perm-flag-restrictions-only", ["C03"], P, "fire",
+  (IRI, "            if not needs_facet_permutations:\n                needs_facet_permutations = any(\n                    table.shape[0] > 1 for table in active_tables.values()\n                )\n", ""))
+V("perm-flag-overwritten", ["C03"], P, "fire",
+  (IRI, "            if not needs_facet_permutations:\n                needs_facet_permutations = (\n                    \"+\" in restrictions and \"-\" in restrictions\n                ) or is_mixed_dim\n            # The kernel reads quadrature_permutation whenever one of its tables\n            # kept its permutation axis (e.g. one-sided interior facet terms)\n            if not needs_facet_permutations:\n                needs_facet_permutations = any(",
+        "            needs_facet_permutations = (\n                \"+\" in restrictions and \"-\" in restrictions\n            ) or is_mixed_dim\n            # The kernel reads quadrature_permutation whenever one of its tables\n            # kept its permutation axis (e.g. one-sided interior facet terms)\n            if True:\n                needs_facet_permutations = any("))
+V("perm-in-place", ["C03"], P, "fire", (ET, "def permute_quadrature_triangle(points, reflections=0, rotations=0):\n    \"\"\"Permute quadrature points for a triangle.\"\"\"\n    output = points.copy()", "def permute_quadrature_triangle(points, reflections=0, rotations=0):\n    \"\"\"Permute quadrature points for a triangle.\"\"\"\n    output = points"))
+V("perm-benign-keywords", ["C03"], P, "benign",
+  (ET, "                                        permute_quadrature_triangle(\n                                            quadrature_rule.points, ref, rot\n                                        ),", "                                        permute_quadrature_triangle(\n                                            quadrature_rule.points, rotations=rot, reflections=ref\n                                        ),"))
+
+# ---- C09 / C18 ---------------------------------------------------------------------------------------------
+B = ["MATH-TABLES", "BACKEND-SIBLING", "TYPE-ROLES", "KERNEL-SIG", "LIT-DIGITS"]
+V("be-cos-is-sin", ["C09"], B, "fire", (CF, "        \"cos\": \"cosf\",", "        \"cos\": \"sinf\","))
+V("be-float64-uses-float", ["C09"], B, "fire", (CF, "    \"float64\": {\n        \"sqrt\": \"sqrt\",", "    \"float64\": {\n        \"sqrt\": \"sqrtf\","))
+V("be-complex-uses-real", ["C09"], B, "fire", (CF, "        \"exp\": \"cexp\",", "        \"exp\": \"exp\","))
+V("be-float32-missing-key", ["C09"], B, "fire", (CF, "        \"erf\": \"erff\",\n", ""))
+V("be-geom-type-scalar", ["C09"], B, "fire",
+  ("ffcx/codegeneration/C/integral.py", "        geom_type=dtype_to_c_type(dtype_to_scalar_dtype(options[\"scalar_type\"])),  # type: ignore", "        geom_type=dtype_to_c_type(options[\"scalar_type\"]),  # type: ignore"))
+V("be-complex-h-inverted", ["C09"], B, "fire", ("ffcx/codegeneration/C/file.py", "    if np.issubdtype(options[\"scalar_type\"], np.complexfloating):", "    if not np.issubdtype(options[\"scalar_type\"], np.floating):\n        pass\n    if np.issubdtype(options[\"scalar_type\"], np.floating):"))
+V("be-coordinate-dofs-scalar", ["C09"], B, "fire", (SYM, "        self.coordinate_dofs = L.Symbol(\"coordinate_dofs\", dtype=L.DataType.REAL)", "        self.coordinate_dofs = L.Symbol(\"coordinate_dofs\", dtype=L.DataType.SCALAR)"))
+V("be-real-typed-scalar", ["C09"], B, "fire",
+  (IG, "    is_real = isinstance(v, (ufl.classes.Real, ufl.classes.Imag))\n    if is_real:\n        return L.DataType.REAL", "    is_real = isinstance(v, (ufl.classes.Real,))\n    if is_real:\n        return L.DataType.REAL"))
+V("be-remove-complex-always", ["C09"], B, "fire", ("ffcx/analysis.py", "    if not np.issubdtype(scalar_type, np.complexfloating):\n        expression = ufl.algorithms.remove_complex_nodes", "    if np.issubdtype(scalar_type, np.floating) or True:\n        expression = ufl.algorithms.remove_complex_nodes"))
+V("be-numba-ln-log10", ["C18"], B, "fire", (NF, "            \"ln\": \"log\",", "            \"ln\": \"log10\","))
+V("be-numba-no-conditional", ["C18"], B, "fire",
+  (NF, "    @__call__.register\n    def _(self, s: L.Conditional) -> str:\n        \"\"\"Format a conditional.\"\"\"", "    def _conditional(self, s: L.Conditional) -> str:\n        \"\"\"Format a conditional.\"\"\""))
+V("be-numba-sizes-single", ["C18", "C08"], B, "fire", (COM, "    width = 2 if ir.expression.integral_type == \"interior_facet\" else 1", "    width = 1"))
+V("be-numba-params-swapped", ["C18"], B, "fire",
+  ("ffcx/codegeneration/numba/integral_template.py", "def tabulate_tensor_{factory_name}(_A, _w, _c, _coordinate_dofs,", "def tabulate_tensor_{factory_name}(_A, _c, _w, _coordinate_dofs,"))
+V("be-benign-extra-row-entry", ["C09"], B, "benign", (CF, "        \"erf\": \"erf\",\n        \"atan_2\": \"atan2\",", "        \"erf\": \"erf\",\n        \"atan2\": \"atan2\",\n        \"atan_2\": \"atan2\","))
+
+# ---- C01 / C04 / C10 / C11 ---------------------------------------------------------------------------------
+AN = "ffcx/analysis.py"
+PL = ["PIPE-FLAGS", "FACT-LAWS", "RULE-COHERENCE", "SCOPE-KEY", "QMETA-FLOW", "OPT-GATE", "EXPR-LAYOUT", "RULE-SCOPED-NAMES", "STALE-LOOPVAR"]
+V("pipe-no-integral-scaling", ["C01"], PL, "fire", (AN, "        do_apply_integral_scaling=True,", "        do_apply_integral_scaling=False,"))
+V("pipe-no-pullbacks", ["C01"], PL, "fire", (AN, "        do_apply_function_pullbacks=True,\n", ""))
+V("pipe-jacobian-not-preserved", ["C01"], PL, "fire", (AN, "        preserve_geometry_types=(ufl.classes.Jacobian,),\n        do_apply_restrictions=True,", "        preserve_geometry_types=(),\n        do_apply_restrictions=True,"))
+V("pipe-expression-order", ["C04"], PL, "fire",
+  (AN, "    expression = ufl.algorithms.apply_derivatives.apply_derivatives(expression)\n    expression = ufl.algorithms.apply_function_pullbacks.apply_function_pullbacks(expression)\n",
+       "    expression = ufl.algorithms.apply_function_pullbacks.apply_function_pullbacks(expression)\n    expression = ufl.algorithms.apply_derivatives.apply_derivatives(expression)\n"))
+V("fact-sum-is-difference", ["C01"], PL, "fire", (FAC, "                fisum = graph_insert(F, f0 + f1)", "                fisum = graph_insert(F, f0 - f1)"))
+V("fact-sum-drops-one-sided", ["C01"], PL, "fire", (FAC, "            if fi0 is None:\n                fisum = fi1\n            elif fi1 is None:\n                fisum = fi0", "            if fi0 is None:\n                fisum = fi0\n            elif fi1 is None:\n                fisum = fi0"))
+V("fact-division-inverted", ["C01"], PL, "fire", (FAC, "            factors[k0] = graph_insert(F, f0 / f1)", "            factors[k0] = graph_insert(F, f1 / f0)"))
+V("fact-conditional-swapped", ["C01"], PL, "fire", (FAC, "            factors[k] = graph_insert(F, conditional(f0, f1, f2))", "            factors[k] = graph_insert(F, conditional(f0, f2, f1))"))
+V("fact-product-key-unsorted", ["C01"], PL, "fire", (FAC, "                argkey = tuple(sorted(k0 + k1))  # sort key for canonical representation", "                argkey = tuple(k0)  # sort key for canonical representation"))
+V("coh-other-rule-graph", ["C01", "C11"], PL, "fire",
+  (IG, "            F = self.ir.expression.integrand[(domain, quadrature_rule)][\"factorization\"]\n\n            v = F.nodes[factor_index][\"expression\"]", "            F = next(iter(self.ir.expression.integrand.values()))[\"factorization\"]\n\n            v = F.nodes[factor_index][\"expression\"]"))
+V("coh-swapped-dispatch", ["C01", "C11"], PL, "fire", (IG, "                all_quadparts += self.generate_quadrature_loop(rule, cell)", "                all_quadparts += self.generate_quadrature_loop(cell, rule)"))
+V("scope-guard-with-fallback", ["C11", "C01"], PL, "fire",
+  (IG, "            if not v._ufl_is_literal_ and self.scopes[(domain, quadrature_rule)].get(v) is None:", "            if not self.get_var(quadrature_rule, domain, v):"))
+V("qmeta-max-degree", ["C11"], PL, "fire",
+  (AN, "                if qd < 0:\n                    qd = int(np.max(integral.metadata()[\"estimated_polynomial_degree\"]))", "                if qd < int(np.max(integral.metadata()[\"estimated_polynomial_degree\"])):\n                    qd = int(np.max(integral.metadata()[\"estimated_polynomial_degree\"]))"))
+V("qmeta-degree-scheme-swapped", ["C11"], PL, "fire", (REP, "                ufl_cell,\n                degree,\n                scheme,\n                argument_elements,", "                ufl_cell,\n                scheme,\n                degree,\n                argument_elements,"))
+V("qmeta-vertex-weights", ["C11"], PL, "fire", (REP, "            weights = np.full(points.shape[0], cell_volume / points.shape[0], dtype=points.dtype)", "            weights = np.full(points.shape[0], cell_volume, dtype=points.dtype)"))
+V("qmeta-rule-eq-points-only", ["C11"], PL, "fire", (RU, "        return np.allclose(self.points, other.points) and np.allclose(self.weights, other.weights)", "        return np.allclose(self.points, other.points)"))
+V("qmeta-facet-degree-plus-one", ["C11"], PL, "fire", (RU, "            pts[ft.cellname], wts[ft.cellname] = create_quadrature(\n                ft.cellname,\n                degree,", "            pts[ft.cellname], wts[ft.cellname] = create_quadrature(\n                ft.cellname,\n                degree + 1,"))
+V("opt-diagonal-ungated", ["C10"], PL, "fire", (IG, "            if self.ir.part == TensorPart.diagonal and block_rank == 2:\n                insert_rank = 1", "            if self.ir.part == TensorPart.diagonal:\n                insert_rank = 1"))
+V("opt-tolerance-dropped", ["C10"], PL, "fire", (IRI, "        rtol=p[\"table_rtol\"],\n        atol=p[\"table_atol\"],\n", ""))
+V("opt-tensor-rule-facets", ["C10"], PL, "fire", (REP, "    use_sum_factorization = sum_factorization and integral_type == \"cell\"", "    use_sum_factorization = sum_factorization"))
+V("expr-index-roles-swapped", ["C04"], PL, "fire", (EG, "                indices = [A_indices[0], fi_ci[1]] + list(A_indices[1:])", "                indices = [fi_ci[1], A_indices[0]] + list(A_indices[1:])"))
+V("expr-entity-from-cell", ["C04"], PL, "fire", (REP, "        elif tdim - 1 == pdim:\n            base_ir[\"entity_type\"] = \"facet\"", "        elif tdim - 1 == pdim:\n            base_ir[\"entity_type\"] = \"cell\""))
+V("pipe-benign-rename-fact", ["C01"], PL, "benign",
+  (FAC, "                f0 = F.nodes[fi0][\"expression\"]\n                f1 = F.nodes[fi1][\"expression\"]\n                fisum = graph_insert(F, f0 + f1)", "                lhs = F.nodes[fi0][\"expression\"]\n                rhs = F.nodes[fi1][\"expression\"]\n                fisum = graph_insert(F, lhs + rhs)"))
+V("pipe-benign-guard-local", ["C11", "C01"], PL, "benign",
+  (IG, "            if not v._ufl_is_literal_ and self.scopes[(domain, quadrature_rule)].get(v) is None:", "            cached = self.scopes[(domain, quadrature_rule)].get(v)\n            if not v._ufl_is_literal_ and cached is None:"))
